@@ -310,18 +310,38 @@ def _classify_main(res, u, m):
     text_lines = u.text.split("\n")
     verif_fail = []
     other = []
+    rl_diags = []
     for d in diags:
         msg = d.get("message", "")
         if msg.startswith("aborting due to"):
             continue
         kind = classify_diag(d)
         if any(r in msg for r in RESOURCE_MSGS):
-            res["undecided"].append("rlimit: %s" % msg)
+            rl_diags.append(d)
             continue
         if kind is None:
             other.append(d)
         else:
             verif_fail.append((kind, d))
+    # Verus keeps searching for further errors after the first one (--multiple-errors); if that search runs out of resources
+    # in a function that already has a DEFINITE failed obligation, the failure stands (the rlimit message is dropped). Only a
+    # resource limit without any definite failure in that function leaves the function undecided.
+    def _fn_of(d):
+        o, ln = map_span(u, d)
+        if not ln:
+            return None
+        f = item_of_line(u, ln) if (o and o[3]) else None
+        if f is None:
+            its = all_spans_items(u, d)
+            f = its[0] if its else enclosing_fn(text_lines, ln)
+        return f
+    failed_fns = {_fn_of(d) for _k, d in verif_fail}
+    for d in rl_diags:
+        f = _fn_of(d)
+        if f is not None and f in failed_fns:
+            continue
+        res["undecided"].append("rlimit: %s (%s)" % (d.get("message", ""), f))
+        res["status"] = "undecided"
     if j is None or vr.get("encountered-vir-error") or (other and not vr.get("verified") and not verif_fail):
         res["status"] = "undecided"
         for d in other[:5]:
